@@ -909,6 +909,44 @@ theorem C06_flow_cause (nodes : Nat → Node) (exc : Nat → Nat → E) (refusal
   simp only [h2]
   rfl
 
+/-- BOOKED ON THE RIGHT NODE: a child none of whose `run()`s raised into the composite — it completed, or answered from
+its cache, every time — has no entry in the error dict, whatever the children it triggers do -/
+theorem C06_flow_hit_not_blamed (nodes : Nat → Node) (exc : Nat → Nat → E) (refusal : Nat → E)
+    (g : Graph) (fuel : Nat) (st : Store) (rec : Nat → List Label) (i : Nat)
+    (hi : ∀ en ∈ (flowRun true nodes exc refusal g fuel st rec).store.log, en.child = i → en.raised = false) :
+    dget (flowRun true nodes exc refusal g fuel st rec).store.book.errors i = none := by
+  have hk := C06_flow_one_error_per_child nodes exc refusal g fuel st rec
+  have hc := (C06_flow_contained true nodes exc refusal g fuel st rec).2.1
+  cases hd : dget (flowRun true nodes exc refusal g fuel st rec).store.book.errors i with
+  | none => rfl
+  | some e =>
+    exfalso
+    have := (hk.2 i).mp (by rw [hd]; rfl)
+    rw [hc] at this
+    simp only [List.mem_map, List.mem_filter] at this
+    obtain ⟨en, ⟨hen, hr⟩, hch⟩ := this
+    rw [hi en hen hch] at hr; cases hr
+
+/-! a cache hit must go through the queue: `a >> b`, both cached from a first run; in the second run `b` has an input
+edited and its function raises. Queued: the error is `b`'s, booked on `b`. Emitted directly inside `a.run()`: booked on
+`a`, nothing on `b` (the composite can only find `b` by its failed flag afterwards). -/
+def zNodes (second : Bool) : Nat → Node := fun i =>
+  { kind := .term i, slots := [{ own := if second && i == 1 then .nat 7 else .d, conns := [] }], useCache := true,
+    failAt := if second && i == 1 then [2] else [] }
+def zGraph : FinGraph :=
+  { conns := [[⟨1, false⟩]], accConns := [], labs := [0], starters := [0] }
+def zFirst : Store :=
+  (flowRun true (zNodes false) (fun i _ => 100 + i) (fun i => 200 + i) zGraph.toGraph 10 Store.init (fun _ => [])).store.st
+def zSecond (direct : Bool) : Signal.S (FStore Nat) :=
+  compositeRun (if direct then flowSemDirect zGraph.toGraph (zNodes true) (fun i _ => 100 + i) (fun i => 200 + i)
+      else flowSem true (zNodes true) (fun i _ => 100 + i) (fun i => 200 + i))
+    zGraph.toGraph 10 (S.init (FStore.init zFirst) (fun _ => []))
+
+theorem C06_flow_direct_hit_witness :
+    (dget (zSecond false).store.book.errors 1, dget (zSecond false).store.book.errors 0) = (some 101, none) ∧
+    (dget (zSecond true).store.book.errors 1, dget (zSecond true).store.book.errors 0) = (none, some 101) ∧
+    (zSecond true).store.st.failed 1 = true := by decide
+
 /-! non-vacuity and the pinned book-keeping: `a >> c`, `b >> c`, starting nodes `a, b`; `c`'s function raises at its
 first invocation. Exceptions: `100 + child` from a function, `200 + child` = refusal. -/
 def yNodes : Nat → Node := fun i =>
@@ -928,6 +966,104 @@ example : seen (yRun true).store.book = .failedChild (some 102) := by decide
 theorem C06_flow_pinned_witness :
     seen (yRun false).store.book = .failedChild (some 202) ∧ seen (yRun true).store.book = .failedChild (some 102) := by
   decide
+
+/-! ### pulls inside a composite
+
+`node.pull()` of a child runs the parent on a temporary LINEAR wiring of the target's data tree — `order[k]`'s `ran` is
+wired to the `run` input of `order[k+1]`, the first is the only starting node, the pulled node comes last — on the very
+loop of `Signal.compositeRun`. -/
+
+def chainGraph (order : List Nat) : Graph :=
+  { conns := fun s => match (order.zip order.tail).find? (fun p => sigRan p.1 == s) with
+      | some p => [{ node := p.2, acc := false }]
+      | none => [],
+    accConns := fun _ => [], lab := fun s => s, starters := order.take 1, sigs := order.map sigRan }
+
+theorem nodup_getElem_inj (l : List Nat) (h : l.Nodup) (i j : Nat) (hi : i < l.length) (hj : j < l.length)
+    (e : l[i] = l[j]) : i = j := by
+  have hp := List.pairwise_iff_getElem.mp h
+  rcases Nat.lt_trichotomy i j with hlt | heq | hgt
+  · exact absurd e (hp i j hi hj hlt)
+  · exact heq
+  · exact absurd e.symm (hp j i hj hi hgt)
+
+theorem chain_conns (order : List Nat) (e : Sig) (r : Recv) (h : r ∈ (chainGraph order).conns e) :
+    ∃ j, ∃ (hj : j + 1 < order.length), e = sigRan (order[j]'(by omega)) ∧ r.node = order[j + 1] := by
+  simp only [chainGraph] at h
+  split at h
+  · rename_i p hp
+    simp only [List.mem_singleton] at h
+    have hmem := List.mem_of_find?_eq_some hp
+    have hsig := List.find?_some hp
+    simp only [beq_iff_eq] at hsig
+    obtain ⟨j, hj, hget⟩ := List.mem_iff_getElem.mp hmem
+    simp only [List.length_zip, List.length_tail] at hj
+    have hj' : j + 1 < order.length := by omega
+    refine ⟨j, hj', ?_, ?_⟩
+    · rw [← hsig, ← hget]; simp
+    · rw [h, ← hget]; simp
+  · cases h
+
+/-- CONTAINED DURING A PULL: if every `run()` the parent made of `order[k]` raised (its function raised; it was refused),
+no later node of the chain is run — in particular not the pulled node, which comes last -/
+theorem C06_pull_contained (rep : Bool) (nodes : Nat → Node) (exc : Nat → Nat → E) (refusal : Nat → E)
+    (order : List Nat) (hnd : order.Nodup) (fuel : Nat) (st : Store) (rec : Nat → List Label)
+    (k : Nat) (hk : k < order.length)
+    (hf : ∀ en ∈ (flowRun rep nodes exc refusal (chainGraph order) fuel st rec).store.log,
+      en.child = order[k] → en.raised = true) :
+    ∀ m, ∀ (hm : m < order.length), k < m →
+      order[m] ∉ (flowRun rep nodes exc refusal (chainGraph order) fuel st rec).fired := by
+  have hcont := C06_flow_contained rep nodes exc refusal (chainGraph order) fuel st rec
+  have hdisc := C06_flow_failed_emits_failed_only rep nodes exc refusal (chainGraph order) fuel st rec
+  intro m
+  induction m with
+  | zero => intro _ h; omega
+  | succ m ih =>
+    intro hm hkm hfired
+    rcases hcont.1 _ hfired with hs | ⟨en, hen, e, he, r, hr, hn⟩
+    · -- a starting node is the head of the chain
+      simp only [chainGraph] at hs
+      cases order with
+      | nil => simp at hm
+      | cons a rest =>
+        simp only [List.take_succ_cons, List.take_zero, List.mem_singleton] at hs
+        have := nodup_getElem_inj _ hnd (m + 1) 0 hm (by simp) (by simpa using hs)
+        omega
+    · obtain ⟨j, hj, hej, hrj⟩ := chain_conns order e r hr
+      have hjm : j + 1 = m + 1 := nodup_getElem_inj _ hnd (j + 1) (m + 1) hj hm (by rw [← hrj, hn])
+      have hjm' : j = m := by omega
+      subst hjm'
+      -- the emitter is `order[j]`, and the run that emitted `ran` did not raise
+      obtain ⟨hok, hown⟩ := hdisc en hen
+      have hchild : en.child = order[j] := by
+        have := hown e he
+        rw [← this, hej]; simp [sigRan]
+      have hnr : en.raised = false := by
+        cases hr' : en.raised with
+        | false => rfl
+        | true =>
+          exfalso
+          have hne := sig_ne (order[j])
+          cases hst : en.started
+          · rw [hok.2.1 hr' hst] at he; cases he
+          · rw [hok.1 hr' hst, hchild] at he
+            simp only [List.mem_singleton] at he
+            exact hne.1 (by rw [← he, hej])
+      by_cases hjk : j = k
+      · subst hjk
+        rw [hf en hen hchild] at hnr; cases hnr
+      · -- `order[j]` ran, although it comes after `order[k]`
+        have : order[j] ∈ (flowRun rep nodes exc refusal (chainGraph order) fuel st rec).fired := by
+          rw [hcont.2.2]
+          exact List.mem_map.mpr ⟨en, hen, hchild⟩
+        exact ih (by omega) (by omega) this
+
+/-- non-vacuity: data tree `0 → 1 → (2 pulled)`, the function of `1` raises: `2` is not run, the caller gets `1`'s error -/
+example : (flowRun true (fun i => { kind := .term i, slots := [], useCache := false, failAt := if i = 1 then [1] else [] })
+      (fun i _ => 100 + i) (fun i => 200 + i) (chainGraph [0, 1, 2]) 10 Store.init (fun _ => [])).fired = [0, 1] ∧
+    seen (flowRun true (fun i => { kind := .term i, slots := [], useCache := false, failAt := if i = 1 then [1] else [] })
+      (fun i _ => 100 + i) (fun i => 200 + i) (chainGraph [0, 1, 2]) 10 Store.init (fun _ => [])).store.book =
+      .failedChild (some 101) := by decide
 
 end PwVerif.C06
 
@@ -1065,3 +1201,6 @@ end PwVerif.C06
 #print axioms PwVerif.C06.C06_nestfine_refines
 #print axioms PwVerif.C06.C06_nestfine_no_downstream
 #print axioms PwVerif.C06.C06_nestfine_nobody_running
+#print axioms PwVerif.C06.C06_flow_hit_not_blamed
+#print axioms PwVerif.C06.C06_flow_direct_hit_witness
+#print axioms PwVerif.C06.C06_pull_contained
